@@ -419,9 +419,12 @@ func (g *gen) stepAnnounce(pi int) {
 	if !v6 && pc.PeerMPv4 && pc.DUTAdvMPv4 && r.Chance(0.5) {
 		st.ForceMP = true
 	}
+	if (v6 || st.ForceMP) && r.Chance(0.2) {
+		st.AlsoNH = true
+	}
 	if pc.AddPathRX {
 		for range pf {
-			st.PathIDs = append(st.PathIDs, uint32(1+r.Intn(3)))
+			st.PathIDs = append(st.PathIDs, uint32(r.Intn(4))) // 0 is a path identifier like any other
 		}
 	}
 	if r.Chance(g.prof.IneligibleProb) {
@@ -599,7 +602,7 @@ func (g *gen) stepWithdraw(pi int) {
 		}
 		st = Step{GapUS: g.gap(), Kind: "withdraw", Peer: pi, V6: v6, Pfx: []Prefix{pick(r, pool)}}
 		if pc.AddPathRX {
-			st.PathIDs = []uint32{uint32(1 + r.Intn(3))}
+			st.PathIDs = []uint32{uint32(r.Intn(4))}
 		}
 	}
 	if !st.V6 && pc.PeerMPv4 && pc.DUTAdvMPv4 && r.Chance(0.5) {
